@@ -94,6 +94,8 @@ pub struct Ghost {
     pub leader_volatile: std::collections::BTreeSet<u64>,
     pub max_commit_ever: u64,
     pub max_leader_commit: u64,
+    /// bit i: index i was covered by a commit advance of a node acting as leader (C04)
+    pub cl_by_leader: u64,
     /// ctx -> (issuer, max commit when issued)
     pub reads: BTreeMap<u32, (u8, u64)>,
     /// reference configuration after applying the conf entries of cl up to index i
@@ -114,6 +116,13 @@ pub struct World {
     pub lock_phase: bool,
     /// LEASE: the term the lock-step majority must keep
     pub lock_term: u64,
+    /// C10 suffix only (never set in explored states): MsgSnapshot travels on a slow side
+    /// channel that takes this many rounds (0 = same channel as everything else)
+    pub slow_snap: usize,
+    /// C10 suffix only: snapshots on the slow channel (from, to, message, rounds left)
+    pub slow_lane: Vec<(u8, u8, Message, usize)>,
+    /// C10 suffix only: number of MsgSnapshot messages delivered by settle()
+    pub snap_msgs_delivered: u32,
 }
 
 /// Observation of one node before/after an API call.
@@ -130,6 +139,8 @@ pub struct Snap {
     pub last: u64,
     pub last_term: u64,
     pub base_term: u64,
+    /// the node itself can tell the term at first-1 (false only in the "-memq" scenarios)
+    pub base_known: bool,
     /// (term, digest, entry type) for first..=last
     pub log: Vec<(u64, u64, u8)>,
     pub msgs_len: usize,
@@ -209,7 +220,13 @@ pub fn snap_of(rn: &Rn) -> Snap {
         first,
         last,
         last_term: rl.term(last).unwrap_or(u64::MAX),
-        base_term: rl.term(first - 1).unwrap_or(u64::MAX),
+        base_term: match rl.term(first - 1) {
+            Ok(t) => t,
+            // "-memq": the storage forgot it; the monitors still know the truth
+            Err(_) if rl.store.term_lost && first - 1 == rl.store.snap_index => rl.store.snap_term,
+            Err(_) => u64::MAX,
+        },
+        base_known: rl.term(first - 1).is_ok(),
         log,
         msgs_len: r.msgs.len(),
         msgs: if r.verif_view().batch_append {
@@ -341,6 +358,9 @@ impl World {
             in_prefix: true,
             lock_phase: false,
             lock_term: 0,
+            slow_snap: 0,
+            slow_lane: vec![],
+            snap_msgs_delivered: 0,
         };
         w.ghost.cl.push(None);
         w.ghost.cl_fold.push(Some(0));
@@ -700,7 +720,11 @@ impl World {
             }
             let vw = r.verif_view();
             if lock.contains(&id) {
-                // lock-step nodes are ticked by LockTick only and take no client input
+                // lock-step nodes are ticked by LockTick only and take no client input, except
+                // (the -req scenarios) a follower's application asking for a snapshot
+                if r.state != StateRole::Leader && u.reqsnaps < c.reqsnaps && r.leader_id != 0 && !self.lock_phase {
+                    out.push(Action::RequestSnap(id));
+                }
                 continue;
             }
             if r.state != StateRole::Leader {
@@ -754,7 +778,7 @@ impl World {
                 }
             }
             if u.compacts < c.compacts
-                && l.rn.store().app.applied > l.rn.store().snap_index
+                && l.rn.store().app.applied > l.rn.store().snap_index + s.mem_compact as u64
                 && l.rn.raft.raft_log.unstable.snapshot.is_none()
             {
                 out.push(Action::Compact(id));
@@ -1205,7 +1229,11 @@ impl World {
                     self.used.compacts += 1;
                 }
                 let applied = self.live(i).unwrap().rn.store().app.applied;
-                self.write(i, 0, WriteOp::Compact(applied));
+                if self.scen.mem_compact {
+                    self.write(i, 0, WriteOp::CompactKeep(applied));
+                } else {
+                    self.write(i, 0, WriteOp::Compact(applied));
+                }
                 true
             }
             Action::ReportSnap(id, to, ok) => {
@@ -1316,6 +1344,15 @@ impl World {
                         }
                         while self.net.contains_key(&k) {
                             progressed = true;
+                            if self.scen.lock_snap_lost && self.net[&k][0].get_msg_type() == MessageType::MsgSnapshot {
+                                // the snapshot transfer takes for ever: modelled as loss
+                                let q = self.net.get_mut(&k).unwrap();
+                                q.remove(0);
+                                if q.is_empty() {
+                                    self.net.remove(&k);
+                                }
+                                continue;
+                            }
                             if !self.apply_inner(&Action::Deliver(k.0, k.1), ctx) {
                                 return false;
                             }
@@ -1545,7 +1582,15 @@ impl World {
                     Some(Err(_)) => {} // rejected change: configuration unchanged
                 }
             }
-            self.write(i, 0, WriteOp::Applied(app));
+            if self.cfg(i).split_app_store {
+                // the state machine lives in its own store with synchronous writes: its applied
+                // index can be ahead of the commit index in the raft store after a crash
+                let node = &mut self.nodes[i];
+                node.live.as_mut().unwrap().rn.mut_store().apply_op(&WriteOp::Applied(app.clone()));
+                node.disk.app = app;
+            } else {
+                self.write(i, 0, WriteOp::Applied(app));
+            }
             self.check_conf_after_apply(i, &e, ctx);
         }
         true
@@ -1687,6 +1732,19 @@ impl World {
                 }
                 if self.net.contains_key(&k) {
                     progressed = true;
+                    let head_is_snap = self.net[&k][0].get_msg_type() == MessageType::MsgSnapshot;
+                    if head_is_snap {
+                        self.snap_msgs_delivered += 1;
+                        if self.slow_snap > 0 {
+                            let q = self.net.get_mut(&k).unwrap();
+                            let m = q.remove(0);
+                            if q.is_empty() {
+                                self.net.remove(&k);
+                            }
+                            self.slow_lane.push((k.0, k.1, m, self.slow_snap));
+                            continue;
+                        }
+                    }
                     if !self.apply_inner(&Action::Deliver(k.0, k.1), ctx) {
                         return false;
                     }
@@ -1697,6 +1755,27 @@ impl World {
             }
         }
         panic!("settle did not reach quiescence");
+    }
+
+    /// C10 suffix: one round passes on the slow snapshot channel; snapshots whose time is up
+    /// are delivered (to running nodes) and reported as sent successfully.
+    pub fn slow_lane_round(&mut self, ctx: &mut Ctx) -> bool {
+        let lane = std::mem::take(&mut self.slow_lane);
+        for (from, to, m, left) in lane {
+            if left > 1 {
+                self.slow_lane.push((from, to, m, left - 1));
+                continue;
+            }
+            if self.live(to as usize - 1).is_some() && !self.deliver(to as usize - 1, m, ctx) {
+                return false;
+            }
+            let fi = from as usize - 1;
+            let pending = self.live(fi).map(|l| l.snap_out.contains(&(to as u64))).unwrap_or(false);
+            if pending && !self.apply_inner(&Action::ReportSnap(from, to, true), ctx) {
+                return false;
+            }
+        }
+        true
     }
 
     // ------------------------------------------------------------------ canonical key
@@ -1761,6 +1840,7 @@ impl World {
         w.u8(0xfe);
         w.u64(g.max_commit_ever);
         w.u64(g.max_leader_commit);
+        w.u64(g.cl_by_leader);
         for (c, (n, gg)) in &g.reads {
             w.u64(*c as u64);
             w.u8(*n);
@@ -1778,6 +1858,7 @@ pub fn write_store(w: &mut W, s: &Store) {
     w.hs(&s.hs);
     w.u64(s.snap_index);
     w.u64(s.snap_term);
+    w.b(s.term_lost);
     w.us(s.entries.len());
     for e in &s.entries {
         w.entry(e);
@@ -1818,6 +1899,10 @@ fn write_op(w: &mut W, op: &WriteOp) {
         }
         WriteOp::Compact(c) => {
             w.u8(6);
+            w.u64(*c)
+        }
+        WriteOp::CompactKeep(c) => {
+            w.u8(7);
             w.u64(*c)
         }
     }
